@@ -26,9 +26,11 @@ Definition check_611 (fs : list field) : verdict :=
     match parse_path rest with
     | Some (p, [FZ st; FZ ty; FZ s; FZ e]) =>
       if st =? 3 then VBad 3 [] else
-      (* the key readers of the map search go through dec_scalar: with a huge length prefix somewhere the search model is
-         only run when the bounded skip (Z arithmetic) accepts the whole value, i.e. has validated every prefix *)
-      if has_huge_len (zlen bs) bs && (match skip_go t bs with Some _ => false | None => true end) then VSkip else
+      (* only the STRING-key map search reads strings through dec_scalar: for such a path, with a window that reads as a
+         length above 2^20 somewhere, the search model is only run when the bounded skip (Z arithmetic) accepts the whole
+         value, i.e. has validated every prefix *)
+      if existsb (fun st => match st with PStrKey _ => true | _ => false end) p
+         && has_huge_len (Z.max (zlen bs) (2 ^ 20)) bs && (match skip_go t bs with Some _ => false | None => true end) then VSkip else
       match get_by_path t bs 0 p with
       | GFound t' a b =>
         if st =? 0 then expect 1 ((ty =? t') && (s =? a) && (e =? b)) [FZ t'; FZ a; FZ b]
